@@ -171,6 +171,9 @@ def gen_scenarios(plan_items, seed, out, scale=1.0):
             if fam == "tlcev":       # ... from the event-path model
                 k = dict(kv.split("=") for kv in params.split(",") if kv).get("k", "3")
                 args = [sys.executable, os.path.join(HERE, "gen", "tlcgen.py"), "--model", "ev", "--steps", k, "--sample", str(n), "--seed", str(seed * 131 + idx)]
+            if fam == "tlcwslag":    # ... the watch-set model with a lagging reader
+                k = dict(kv.split("=") for kv in params.split(",") if kv).get("k", "3")
+                args = [sys.executable, os.path.join(HERE, "gen", "tlcgen.py"), "--model", "wslag", "--steps", k, "--sample", str(n), "--seed", str(seed * 131 + idx)]
             if fam == "tlcreclag":   # ... with a lagging reader
                 k = dict(kv.split("=") for kv in params.split(",") if kv).get("k", "3")
                 args = [sys.executable, os.path.join(HERE, "gen", "tlcgen.py"), "--model", "reclag", "--steps", k, "--sample", str(n), "--seed", str(seed * 131 + idx)]
